@@ -90,6 +90,7 @@ class TaskScenario(ScenarioData):
         self.doneEffort = 0.0
         self.scheduled = False
         self._selectedResources = None  # Reset alternative resource selection
+        self._contiguousFreeRun = None  # Known free run of the contiguous probe
 
         # Track exact start time within a slot (for mid-slot dependency starts)
         # This is the number of seconds into the slot where we should start booking
@@ -452,6 +453,8 @@ class TaskScenario(ScenarioData):
     def schedule(self) -> bool:
         if self.scheduled:
             return True
+        # Other tasks may have booked since an earlier attempt
+        self._contiguousFreeRun = None
 
         # Determine start slot
         forward = self.property.get("forward", self.scenarioIdx)
@@ -1146,26 +1149,44 @@ class TaskScenario(ScenarioData):
         slots_needed = required_duration / slot_duration_hours
 
         # Check if we have that many consecutive working slots starting from current
-        consecutive_count = 0
         current_slot = self.currentSlotIdx if self.currentSlotIdx is not None else 0
         max_slots = len(res_scenario.scoreboard) if res_scenario.scoreboard else 1000
 
+        return self._freeRunFits(("resource", id(res_scenario)), current_slot, max_slots, slots_needed, res_scenario.available)
+
+    def _freeRunFits(self, tag: Any, first_slot: int, max_slots: int, slots_needed: float, is_free: Any) -> bool:
+        """
+        True if the slots from first_slot on are free for at least slots_needed slots in a row.
+
+        The probe runs for every slot of the walk while nothing has been booked for
+        this task. A run that turned out too short is remembered (it ends at a slot
+        that is not free, or at the end of the table), so that the probes for its
+        other slots - walking forward or backward - need not count it again.
+        """
+        known = getattr(self, "_contiguousFreeRun", None)
+        if known is not None and known[0] == tag:
+            _, run_start, run_end = known
+            if run_start <= first_slot < run_end:
+                return run_end - first_slot >= slots_needed
+            if first_slot == run_start - 1 and first_slot >= 0 and is_free(first_slot):
+                self._contiguousFreeRun = (tag, first_slot, run_end)
+                return run_end - first_slot >= slots_needed
+
+        consecutive_count = 0
+        current_slot = first_slot
         while current_slot < max_slots and consecutive_count < slots_needed:
-            if res_scenario.available(current_slot):
-                if consecutive_count == 0 and current_slot != self.currentSlotIdx:
-                    # Gap before first available - not contiguous from current
-                    return False
+            if is_free(current_slot):
                 consecutive_count += 1
                 current_slot += 1
             else:
-                # Hit a break/unavailable slot
+                # Hit a break/unavailable slot: the run [first_slot, current_slot) is too short
                 if consecutive_count > 0:
-                    # Already started counting but hit a break - not enough contiguous
-                    return False
-                else:
-                    # Haven't found starting slot yet - not available at current
-                    return False
+                    self._contiguousFreeRun = (tag, first_slot, current_slot)
+                return False
 
+        if consecutive_count < slots_needed and consecutive_count > 0:
+            # The table ended before the block was complete
+            self._contiguousFreeRun = (tag, first_slot, current_slot)
         result_bool: bool = consecutive_count >= slots_needed
         return result_bool
 
@@ -1177,24 +1198,10 @@ class TaskScenario(ScenarioData):
         slot_duration_hours = slot_duration_sec / 3600.0
         slots_needed = effort / slot_duration_hours
 
-        consecutive_count = 0
         current_slot = self.currentSlotIdx if self.currentSlotIdx is not None else 0
         max_slots = self.project.scoreboardSize()
 
-        while current_slot < max_slots and consecutive_count < slots_needed:
-            if self.project.isWorkingTime(current_slot):
-                if consecutive_count == 0 and current_slot != self.currentSlotIdx:
-                    return False
-                consecutive_count += 1
-                current_slot += 1
-            else:
-                if consecutive_count > 0:
-                    return False
-                else:
-                    return False
-
-        result_bool: bool = consecutive_count >= slots_needed
-        return result_bool
+        return self._freeRunFits(("project",), current_slot, max_slots, slots_needed, self.project.isWorkingTime)
 
     def _resolve_resource(self, alloc: Any) -> Optional[Any]:
         """
